@@ -235,6 +235,9 @@ func Roles() Spec {
 		Msg("rot:curator A->B", &baskettypes.MsgUpdateCurator{Curator: A.String(), Denom: NCT, NewCurator: B.String()}),
 		Msg("rot:allowlist on", &basetypes.MsgSetClassCreatorAllowlist{Authority: G.String(), Enabled: true}),
 		Msg("rot:creator D", &basetypes.MsgAddClassCreator{Authority: G.String(), Creator: D.String()}),
+		// the authority account itself holds credits of b1 and has some of them on sale
+		Send(B, G, B1, "3", "0"),
+		Sell(G, B1, "2", coin("uregen", 9), true, nil),
 	)
 	rotated := explore.Seed{Name: "rotated-roles", Build: func(c *chain.Chain) sdk.Context {
 		ctx := PreparedSeed("prepared").Build(c)
